@@ -12,11 +12,21 @@
   The theorems that need the last clause carry the suffix `_partial`; the statements without it
   are `…_full` and are refuted by a concrete link set.
 
-  The model is the code as it stands (after the fixes of F-16b, F-16c, F-17a … F-17d, the six
+  From the checks to `Valid` (last section).  Since the F-17e fix (link paths are normalised
+  before the checks, a normalised path generated for two jobs is refused) every accepted link
+  set is valid: `accepts_valid`.  The end-to-end theorems `view_create`, `view_scratch`,
+  `view_incremental_eq_scratch`, `view_idempotent`, `view_twice` therefore have no hypothesis
+  but "the current and the previous input were accepted" and "the view is the picture of the
+  previous link set".  The inputs that went wrong before the fix are now rejected without
+  touching the view (`clash_*`, `byId_dup_rejected`, `abs_rejected`) or accepted with a valid
+  link set and a second run without any step (`up_*`, `dot_*`).
+
+  The model is the code as it stands (after the fixes of F-16b, F-16c, F-17a … F-17e, the seven
   defects this check found; see proposed/F-16b-view.md … F-17d.md).
 -/
 import Signac.Proofs.ViewUpdate
 import Signac.Proofs.ViewChecks
+import Signac.Proofs.ViewAccept
 namespace Signac.C17
 open Signac Signac.LV
 
@@ -100,19 +110,19 @@ theorem view_incremental_full_false : ¬ view_incremental_full := by
 
 /-- **Accepted inputs are representable**: whenever `create_linked_view` gets as far as the link
     set, no top-level key or string value contains the separator, every selected job has a path,
-    the paths are pairwise different, none leaves the prefix, none lies below another, and the
-    link set pairs the i-th path with the i-th selected job. -/
+    the paths are pairwise different (also after normalisation), none leaves the prefix, none
+    lies below another, and the link set pairs the i-th path with the i-th selected job. -/
 theorem view_accepts_sound {jobs : List Job} {spec : PathSpec} {L : List (Path × String)}
     (h : createLinks jobs spec = .ok L) :
     Representable jobs spec ∧
       ∃ ps, pathStrings jobs spec = some (.ok ps) ∧ ps.length = jobs.length ∧
         L = (ps.map linkKey).zip (jobs.map (·.id)) := by
   refine ⟨representable_of_ok h, ?_⟩
-  obtain ⟨_, ps, h2, _, h4, _, _, h7⟩ := createLinks_ok h
+  obtain ⟨_, ps, h2, _, h4, _, _, _, h7⟩ := createLinks_ok h
   exact ⟨ps, h2, h4, h7⟩
 
 /-- **Rejects.**  An input that cannot be represented (separator in a key or value, a job
-    without a path, two jobs with the same path, a path outside the prefix, a path that is both
+    without a path, two jobs with the same (normalised) path, a path outside the prefix, a path that is both
     a link and a directory) never reaches the first file-system step: the existing view is
     returned unchanged and the outcome is a rejection (or the input lies outside the modelled
     fragment of format strings). -/
@@ -164,5 +174,195 @@ example : ¬ Representable [{ id := "j1", sp := [("a", .str "x/y")] }] .auto := 
   have := (h _ List.mem_cons_self ("a", .str "x/y") List.mem_cons_self).2 "x/y" rfl
   revert this
   decide
+
+/-! ## From the acceptance checks to `Valid`
+
+    `create_linked_view` normalises every link path (`normpath(join(path, "job"))`), refuses a
+    normalised path that is generated for two jobs, an absolute path, a path with ".." and a path
+    that is both a link and a directory.  What gets through is a valid link set. -/
+
+/-- **Every accepted link set is valid**: the link paths are pairwise different, none lies below
+    another, each ends in the leaf name, no component is "" or ".". -/
+theorem accepts_valid {jobs : List Job} {spec : PathSpec} {L : List (Path × String)}
+    (hL : createLinks jobs spec = .ok L) : Valid L :=
+  valid_of_ok hL
+
+/-! ### end to end -/
+
+/-- **Create / update.**  An accepted input, on a view that is the picture of an earlier accepted
+    input (whose jobs may have moved or vanished since), ends normally with the exact picture:
+    one link per selected job at its path, the directories leading there, nothing else. -/
+theorem view_create {jobs jobs0 : List Job} {spec spec0 : PathSpec}
+    {L L0 : List (Path × String)} {v : View}
+    (hL : createLinks jobs spec = .ok L) (hL0 : createLinks jobs0 spec0 = .ok L0)
+    (hT : IsTreeOf v L0) :
+    ∃ v', createView v jobs spec = (v', .done) ∧ IsTreeOf v' L :=
+  view_create_partial hL (valid_of_ok hL0) (valid_of_ok hL) hT
+
+/-- **From scratch.** -/
+theorem view_scratch {jobs : List Job} {spec : PathSpec} {L : List (Path × String)}
+    (hL : createLinks jobs spec = .ok L) :
+    ∃ v', createView [] jobs spec = (v', .done) ∧ IsTreeOf v' L :=
+  view_create_partial hL valid_nil (valid_of_ok hL) isTreeOf_nil
+
+/-- **Incremental = from scratch**, at every path. -/
+theorem view_incremental_eq_scratch {jobs jobs0 : List Job} {spec spec0 : PathSpec}
+    {L L0 : List (Path × String)} {v : View}
+    (hL : createLinks jobs spec = .ok L) (hL0 : createLinks jobs0 spec0 = .ok L0)
+    (hT : IsTreeOf v L0) (p : Path) :
+    vget (createView v jobs spec).1 p = vget (createView [] jobs spec).1 p := by
+  obtain ⟨v1, h1, hT1⟩ := view_create hL hL0 hT
+  obtain ⟨v2, h2, hT2⟩ := view_scratch hL
+  rw [h1, h2, hT1 p, hT2 p]
+
+/-- **Idempotent.**  On an up-to-date view the run consists of no step at all. -/
+theorem view_idempotent {jobs : List Job} {spec : PathSpec} {L : List (Path × String)} {v : View}
+    (hL : createLinks jobs spec = .ok L) (hT : IsTreeOf v L) :
+    viewSteps v L = [] ∧ createView v jobs spec = (v, .done) := by
+  obtain ⟨h1, h2⟩ := view_idempotent_partial (valid_of_ok hL) hT
+  exact ⟨h1, by simp only [createView, hL, h2]⟩
+
+/-- **Twice.**  The second of two runs is a no-op. -/
+theorem view_twice {jobs jobs0 : List Job} {spec spec0 : PathSpec}
+    {L L0 : List (Path × String)} {v : View}
+    (hL : createLinks jobs spec = .ok L) (hL0 : createLinks jobs0 spec0 = .ok L0)
+    (hT : IsTreeOf v L0) :
+    ∃ v', createView v jobs spec = (v', .done) ∧ IsTreeOf v' L ∧
+      viewSteps v' L = [] ∧ createView v' jobs spec = (v', .done) := by
+  obtain ⟨v', h1, hT'⟩ := view_create hL hL0 hT
+  exact ⟨v', h1, hT', view_idempotent hL hT'⟩
+
+/-- Anything else is rejected (or outside the modelled fragment) and leaves the view as it is;
+    together with `view_create`: the outcome is never a failed file-system step. -/
+theorem view_never_fails {jobs jobs0 : List Job} {spec spec0 : PathSpec}
+    {L0 : List (Path × String)} {v : View}
+    (hL0 : createLinks jobs0 spec0 = .ok L0) (hT : IsTreeOf v L0) :
+    ∀ e, (createView v jobs spec).2 ≠ .failed e := by
+  intro e he
+  cases hc : createLinks jobs spec with
+  | ok L =>
+    obtain ⟨v', h1, _⟩ := view_create hc hL0 hT
+    rw [h1] at he; cases he
+  | reject r => simp [createView, hc] at he
+  | unmodelled => simp [createView, hc] at he
+
+/-! ### the inputs that went wrong before the F-17e fix -/
+
+/-- anything that is refused leaves every view untouched -/
+theorem createView_reject {jobs : List Job} {spec : PathSpec} {e : Reject} (v : View)
+    (h : createLinks jobs spec = .reject e) : createView v jobs spec = (v, .rejected e) := by
+  simp only [createView, h]
+
+/-! state points `{"a": ""}` and `{"a": "."}`, `path="d/{a}"`: the path strings "d/" and "d/."
+    both normalise to the link path "d/job".  (Before: both accepted, second `symlink` EEXIST,
+    partial view.)  Now: RuntimeError before any file-system step. -/
+
+def clashJobs : List Job :=
+  [{ id := "1", sp := [("a", .str "")] }, { id := "2", sp := [("a", .str ".")] }]
+
+theorem clash_rejected : createLinks clashJobs (.fmt "d/{a}") = .reject .runtime := by decide
+
+theorem clash_view_untouched (v : View) :
+    createView v clashJobs (.fmt "d/{a}") = (v, .rejected .runtime) :=
+  createView_reject v clash_rejected
+
+/-! state points `{"a": ".."}` and `{"a": "x"}`, `path=None`: `normpath("a/..")` is ".", the link
+    path is `normpath("./job")` = "job".  (Before: link path "./job", every re-run removed and
+    re-created the link.)  Now: a valid link set, and the second run does nothing. -/
+
+def upJobs : List Job :=
+  [{ id := "1", sp := [("a", .str "..")] }, { id := "2", sp := [("a", .str "x")] }]
+def upLinks : List (Path × String) := [(["job"], "1"), (["a", "x", "job"], "2")]
+
+theorem up_accepted : createLinks upJobs .auto = .ok upLinks := by decide
+
+theorem up_valid : Valid upLinks := accepts_valid up_accepted
+
+theorem up_twice : ∃ v, createView [] upJobs .auto = (v, .done) ∧ IsTreeOf v upLinks ∧
+    viewSteps v upLinks = [] ∧ createView v upJobs .auto = (v, .done) := by
+  obtain ⟨v, h1, hT⟩ := view_scratch up_accepted
+  exact ⟨v, h1, hT, view_idempotent up_accepted hT⟩
+
+/-! one job, `path="."` and `path="a//b"`: link paths "job" and "a/b/job". -/
+
+def dotJobs : List Job := [{ id := "1", sp := [] }]
+
+theorem dot_accepted : createLinks dotJobs (.fmt ".") = .ok [(["job"], "1")] := by decide
+
+theorem dbl_accepted : createLinks dotJobs (.fmt "a//b") = .ok [(["a", "b", "job"], "1")] := by
+  decide
+
+theorem dot_twice : ∃ v, createView [] dotJobs (.fmt ".") = (v, .done) ∧
+    viewSteps v [(["job"], "1")] = [] ∧ createView v dotJobs (.fmt ".") = (v, .done) := by
+  obtain ⟨v, h1, hT⟩ := view_scratch dot_accepted
+  exact ⟨v, h1, view_idempotent dot_accepted hT⟩
+
+/-! by-id paths for the (unreal) ids "a" and "a/": the same normalised link path, refused.
+    (Before: accepted with a duplicate key — the model does not restrict ids to hex digests.) -/
+
+theorem byId_dup_rejected :
+    createLinks [{ id := "a", sp := [] }, { id := "a/", sp := [] }] .byId = .reject .runtime := by
+  decide
+
+/-! absolute paths keep their leading separator through `normpath` and are refused, also when
+    they come from a nested value (top-level values are covered by the separator check), and so
+    are paths that leave the prefix. -/
+
+theorem abs_rejected :
+    createLinks dotJobs (.fmt "/abs") = .reject .runtime ∧
+    createLinks dotJobs (.fmt "a/../..") = .reject .runtime ∧
+    createLinks [{ id := "1", sp := [("a", .obj [("b", .str "/")])] },
+                 { id := "2", sp := [("a", .obj [("b", .str "x")])] }] .auto = .reject .runtime := by
+  decide
+
+example : normpath "" = "." ∧ normpath "a/.." = "." ∧ normpath "./job" = "job" ∧
+    normpath "/x/job" = "/x/job" ∧ normpath "//x" = "//x" ∧ normpath "///x/../.." = "/" ∧
+    normpath "a//b/./c/" = "a/b/c" ∧ normpath "../a/../../b" = "../../b" := by decide
+
+/-! ### non-vacuity: concrete accepted inputs and an instance of the end-to-end theorems -/
+
+/-- short stand-ins for job ids -/
+def id1 : String := "0a"
+def id2 : String := "1b"
+def id3 : String := "2c"
+
+/-- the earlier selection … -/
+def exJobs0 : List Job :=
+  [{ id := id1, sp := [("a", .int 1), ("b", .str "x y")] },
+   { id := id2, sp := [("a", .int 2), ("b", .str "x y")] }]
+/-- … and the current one: a job removed, a job added, a state point changed -/
+def exJobs : List Job :=
+  [{ id := id2, sp := [("a", .int 2), ("b", .str "z")] },
+   { id := id3, sp := [("a", .int 3), ("b", .str "x y")] }]
+
+/- (`decide +kernel`: the kernel evaluates `str` of integers and the key sort much faster than the
+   elaborator; no extra axioms, see `#print axioms`) -/
+theorem exJobs0_accepted :
+    createLinks exJobs0 .auto = .ok [(["a", "1", "job"], id1), (["a", "2", "job"], id2)] := by
+  decide +kernel
+theorem exJobs_accepted : createLinks exJobs .auto =
+    .ok [(["a", "2", "b", "z", "job"], id2), (["a", "3", "b", "x y", "job"], id3)] := by
+  decide +kernel
+example : createLinks exJobs .byId = .ok [([id2, "job"], id2), ([id3, "job"], id3)] := by decide
+example : createLinks exJobs (.fmt "run/{a}/") =
+    .ok [(["run", "2", "job"], id2), (["run", "3", "job"], id3)] := by decide +kernel
+
+/-- the view of `exJobs0` (automatic paths) updated for `exJobs`, then for `exJobs` by id -/
+example : ∃ v0 v' v'', createView [] exJobs0 .auto = (v0, .done) ∧
+    createView v0 exJobs .auto = (v', .done) ∧
+    vget v' ["a", "2", "b", "z", "job"] = some (.link id2) ∧ vget v' ["a", "1", "job"] = none ∧
+    vget v' ["a", "2"] = some .dir ∧ createView v' exJobs .auto = (v', .done) ∧
+    createView v' exJobs .byId = (v'', .done) ∧
+    vget v'' [id3, "job"] = some (.link id3) ∧ vget v'' ["a"] = none := by
+  have hb : createLinks exJobs .byId = .ok [([id2, "job"], id2), ([id3, "job"], id3)] := by decide
+  obtain ⟨v0, hv0, hT0⟩ := view_scratch exJobs0_accepted
+  obtain ⟨v', hv', hT', _, hv''⟩ := view_twice exJobs_accepted exJobs0_accepted hT0
+  obtain ⟨v'', hv3, hT3⟩ := view_create hb exJobs_accepted hT'
+  refine ⟨v0, v', v'', hv0, hv', ?_, ?_, ?_, hv'', hv3, ?_, ?_⟩
+  · rw [hT']; decide
+  · rw [hT']; decide
+  · rw [hT']; decide
+  · rw [hT3]; decide
+  · rw [hT3]; decide
 
 end Signac.C17
